@@ -225,6 +225,14 @@ pub fn schema_json(s: &Schema) -> J {
     J::Obj(m)
 }
 
+thread_local! {
+    /// parameters moved to components.parameters while one document is printed (they are referenced by `$ref`)
+    static HOISTED: std::cell::RefCell<Vec<(String, J)>> = std::cell::RefCell::new(vec![]);
+}
+
+/// A parameter object, or — for some parameters, chosen by their content so that the printer stays a function of the
+/// document — a `$ref` to the same object under components.parameters. The names P0, P1, ... are reused by every document,
+/// so a reference string means something else in each of them.
 fn param_json(p: &Param) -> J {
     let loc = match p.loc {
         Loc::Path => "path",
@@ -232,7 +240,18 @@ fn param_json(p: &Param) -> J {
         Loc::Header => "header",
         Loc::Cookie => "cookie",
     };
-    obj(vec![("name", js(&p.name)), ("in", js(loc)), ("required", J::Bool(p.required)), ("schema", sref_json(&p.schema))])
+    let o = obj(vec![("name", js(&p.name)), ("in", js(loc)), ("required", J::Bool(p.required)), ("schema", sref_json(&p.schema))]);
+    if (p.name.len() + p.required as usize) % 3 == 0 {
+        let k = HOISTED.with(|h| {
+            let mut h = h.borrow_mut();
+            let n = h.len();
+            h.push((format!("P{}", n), o.clone()));
+            h.len() - 1
+        });
+        obj(vec![("$ref", js(&format!("#/components/parameters/P{}", k)))])
+    } else {
+        o
+    }
 }
 
 fn op_json(o: &Op) -> J {
@@ -284,6 +303,7 @@ pub fn http_spelling(scheme_name: &str, base: &str) -> String {
 }
 
 pub fn spec_json(s: &Spec) -> J {
+    HOISTED.with(|h| h.borrow_mut().clear());
     let mut paths: Vec<(String, J)> = vec![];
     for pi in &s.paths {
         let mut m: Vec<(String, J)> = vec![];
@@ -345,6 +365,10 @@ pub fn spec_json(s: &Spec) -> J {
     let mut comps: Vec<(String, J)> = vec![("schemas".into(), J::Obj(schemas))];
     if !schemes.is_empty() {
         comps.push(("securitySchemes".into(), J::Obj(schemes)));
+    }
+    let hoisted = HOISTED.with(|h| std::mem::take(&mut *h.borrow_mut()));
+    if !hoisted.is_empty() {
+        comps.push(("parameters".into(), J::Obj(hoisted)));
     }
     root.push(("components".into(), J::Obj(comps)));
     if !s.security.is_empty() {
